@@ -34,19 +34,26 @@ pub type Fired = Vec<Option<Pend>>;
 
 /// C17 — action timers. Also produces, for C16, which action each firing belongs to.
 pub fn c17(stream: &[(Ev, Vec<Act>)], n_machines: usize) -> (Fired, Option<Viol>, u64) {
+    let (f, v, n, _) = c17_ext(stream, n_machines);
+    (f, v, n)
+}
+/// As `c17`, plus for every event whether a BlockOutgoing action with bypass=true is pending (issued, not yet fired) when the event is reported.
+pub fn c17_ext(stream: &[(Ev, Vec<Act>)], n_machines: usize) -> (Fired, Option<Viol>, u64, Vec<bool>) {
     let mut pend: Vec<Option<Pend>> = vec![None; n_machines];
     let mut grace: Vec<Vec<Pend>> = vec![vec![]; n_machines];
     let mut fired: Fired = vec![None; stream.len()];
     let mut firings = 0u64;
     let mut last = 0u64;
+    let mut pbb: Vec<bool> = vec![false; stream.len()];
     for (i, (e, acts)) in stream.iter().enumerate() {
         let now = e.t;
+        pbb[i] = pend.iter().flatten().any(|p| !p.pad && p.bypass && p.due > now);
         if now > last {
             for m in 0..n_machines {
                 grace[m].clear();
                 if let Some(p) = &pend[m] {
                     if p.due < now {
-                        return (fired, Some(Viol { sig: "C17:missed-firing".into(), msg: format!("machine {m}: action issued at {}ns due at {}ns ({}) was not superseded but had not fired when time moved on to {}ns", p.issued, p.due, if p.pad { "SendPadding" } else { "BlockOutgoing" }, now), at: i }), firings);
+                        return (fired, Some(Viol { sig: "C17:missed-firing".into(), msg: format!("machine {m}: action issued at {}ns due at {}ns ({}) was not superseded but had not fired when time moved on to {}ns", p.issued, p.due, if p.pad { "SendPadding" } else { "BlockOutgoing" }, now), at: i }), firings, pbb);
                     }
                 }
             }
@@ -57,7 +64,7 @@ pub fn c17(stream: &[(Ev, Vec<Act>)], n_machines: usize) -> (Fired, Option<Viol>
                 let m = machine.into_raw();
                 let pad = matches!(e.event, TriggerEvent::PaddingSent { .. });
                 if m >= n_machines {
-                    return (fired, Some(Viol { sig: "C17:unknown-machine".into(), msg: format!("{:?} names machine {m} which does not exist on this side", e.event), at: i }), firings);
+                    return (fired, Some(Viol { sig: "C17:unknown-machine".into(), msg: format!("{:?} names machine {m} which does not exist on this side", e.event), at: i }), firings, pbb);
                 }
                 let direct = matches!(&pend[m], Some(p) if p.pad == pad && p.due == now);
                 let p = if direct {
@@ -73,7 +80,7 @@ pub fn c17(stream: &[(Ev, Vec<Act>)], n_machines: usize) -> (Fired, Option<Viol>
                             Some(p) => format!("the most recent action for the machine is {} issued at {}ns due at {}ns", if p.pad { "SendPadding" } else { "BlockOutgoing" }, p.issued, p.due),
                             None => "no action is pending for the machine (never issued, already fired, cancelled or superseded)".to_string(),
                         };
-                        return (fired, Some(Viol { sig: format!("C17:spurious-{}", if pad { "PaddingSent" } else { "BlockingBegin" }), msg: format!("{} for machine {m} reported at {}ns, but {why}", if pad { "PaddingSent" } else { "BlockingBegin" }, now), at: i }), firings);
+                        return (fired, Some(Viol { sig: format!("C17:spurious-{}", if pad { "PaddingSent" } else { "BlockingBegin" }), msg: format!("{} for machine {m} reported at {}ns, but {why}", if pad { "PaddingSent" } else { "BlockingBegin" }, now), at: i }), firings, pbb);
                     }
                     Some(p) => {
                         firings += 1;
@@ -102,7 +109,7 @@ pub fn c17(stream: &[(Ev, Vec<Act>)], n_machines: usize) -> (Fired, Option<Viol>
             }
         }
     }
-    (fired, None, firings)
+    (fired, None, firings, pbb)
 }
 fn supersede(p: &mut Option<Pend>, grace: &mut Vec<Pend>, now: u64) {
     if let Some(old) = p.take() {
@@ -216,11 +223,13 @@ pub struct C16Stats {
 }
 
 /// C16 — blocking honoured. `fired` comes from the C17 tracker (which action each firing belongs to).
-pub fn c16(stream: &[(Ev, Vec<Act>)], fired: &Fired) -> (Option<Viol>, C16Stats) {
+pub fn c16(stream: &[(Ev, Vec<Act>)], fired: &Fired, pending_bypass_block: &[bool]) -> (Option<Viol>, C16Stats) {
     let mut st = C16Stats::default();
     let mut active = false;
     let mut until = 0u64;
     let mut allow = false;
+    // the bypass flag of the most recent action that started / updated the blocking ("latest wins")
+    let mut latest_allow = false;
     let mut credits: i64 = 0;
     let mut zero_dur_fired = false;
     let mut last = 0u64;
@@ -248,7 +257,9 @@ pub fn c16(stream: &[(Ev, Vec<Act>)], fired: &Fired) -> (Option<Viol>, C16Stats)
                     active = true;
                     until = nu;
                     allow = p.bypass;
+                    latest_allow = p.bypass;
                 } else if p.replace || nu > until {
+                    latest_allow = p.bypass;
                     if p.replace {
                         st.replaced += 1;
                         allow = p.bypass;
@@ -293,7 +304,7 @@ pub fn c16(stream: &[(Ev, Vec<Act>)], fired: &Fired) -> (Option<Viol>, C16Stats)
                         return (Some(Viol { sig: "C16:leak-during-blocking".into(), msg: format!("a {} packet left at {now}ns while blocking is active until {until}ns, without bypass", if e.pad { "padding" } else { "normal" }), at: i }), st);
                     }
                     if !allow {
-                        return (Some(Viol { sig: "C16:bypass-through-non-bypassable-blocking".into(), msg: format!("a bypass {} packet left at {now}ns while blocking is active until {until}ns, but not every action that started or updated this blocking allowed bypass", if e.pad { "padding" } else { "normal (replacing padding)" }), at: i }), st);
+                        return (Some(Viol { sig: format!("C16:bypass-through-non-bypassable-blocking{}", if latest_allow { "+latest-update-allows-bypass" } else if pending_bypass_block.get(i).copied().unwrap_or(false) { "+pending-bypassable-block-applied-early" } else { "" }), msg: format!("a bypass {} packet left at {now}ns while blocking is active until {until}ns, but not every action that started or updated this blocking allowed bypass", if e.pad { "padding" } else { "normal (replacing padding)" }), at: i }), st);
                     }
                 }
             }
